@@ -15,8 +15,7 @@ ALLOWED = [
 ]
 
 ASSUMPTIONS = [
-    'spec: class7 picks the best suited sub-hand when a suit holds >= 5 cards (no off-suit five-card sub-hand can beat it: quads/full house need >= 3 off-suit cards among 7 distinct cards) -- proved on paper, not mechanised',
-    'spec: the closed-form class numbering of specs/eval_spec.rs (class5) IS the standard 1..7462 numbering; machine-checked only as far as: every class lands in its category interval (classes_ok, verus+run)',
+    'spec: the closed-form FIVE-card class numbering of specs/eval_spec.rs (class5, lifted to cards by class5_cards) IS the standard 1..7462 numbering; machine-checked only as far as: every class lands in its category interval (classes_ok, verus+run). The step from five to seven cards is no longer assumed: lemma_class7_is_best (specs/eval_lemmas.rs) proves that the result of the real MadeHand::from is the minimum of class5_cards over the 21 five-card sub-hands and is attained by one of them, for all 7 distinct cards, flush and non-flush hands alike',
     '#[derive(PartialEq)] on Rank/Suit/Card is structural equality (PartialEqSpecImpl axioms in the unit)',
     'REF_*/AS_* constants are external_body for Z3 (content unknown to the solver); their content is checked by the verified checker compiled with rustc and run natively',
     'machine integers are NOT treated as mathematical: every u8/u16/usize operation carries an overflow obligation',
